@@ -641,10 +641,60 @@ waitCrash:
 		vkit.Note(P, "file.d ended itself during a case (not judged): "+first)
 		miss = nil
 		if strings.Contains(first, "offset corruption") && !hadTrunc {
-			// no truncation anywhere: the restarted file.d took an event it had already committed for new
-			// (or committed one twice) and killed itself over it; every further start meets the same offsets
-			// file and the same lines, so what lies behind them is never delivered
-			o.Failf(P, "restarted-filed-ends-itself:offset-corruption", "after the restart file.d ended itself: %s; offsets file at the kill (present=%v):\n%s", first, haveOffsets, snapshot)
+			// One more kill, and the promise is about the next start: run it, from the offsets file as the
+			// dead file.d left it. A start that ends itself over the same offsets file again can never get
+			// past it (a crash loop); otherwise whatever is still missing must come now.
+			off3 := filepath.Join(dir, "offsets3.yaml")
+			have3 := copyFile(off2, off3)
+			snap3, _ := os.ReadFile(off3)
+			if r3, err3 := startRun(&c, w, off3); err3 == nil {
+				o.Class("third-start-after-filed-ended-itself")
+				missing3 := func() []int {
+					r2.mu.Lock()
+					r3.mu.Lock()
+					defer r2.mu.Unlock()
+					defer r3.mu.Unlock()
+					var m []int
+					for id := range expected {
+						if delivered1[id] == 0 && r2.delivered[id] == 0 && r3.delivered[id] == 0 {
+							m = append(m, id)
+						}
+					}
+					sort.Ints(m)
+					return m
+				}
+				began, lastProgress, lastCount := time.Now(), time.Now(), -1
+				again := ""
+				for {
+					miss = missing3()
+					if len(miss) != lastCount {
+						lastCount, lastProgress = len(miss), time.Now()
+					}
+					if pp := fdkit.TakeLoggedPanics(); len(pp) > 0 {
+						again = pp[0]
+						break
+					}
+					if (len(miss) == 0 && time.Since(began) > 700*time.Millisecond) || time.Since(lastProgress) > 10*time.Second || time.Since(began) > 60*time.Second {
+						break
+					}
+					time.Sleep(5 * time.Millisecond)
+				}
+				if i := strings.IndexByte(again, '\n'); i > 0 {
+					again = again[:i]
+				}
+				switch {
+				case strings.Contains(again, "offset corruption"):
+					miss = nil
+					o.Failf(P, "restart-loop:offset-corruption", "after the restart file.d ended itself (%s); started once more from the offsets file it left, it ended itself again (%s); offsets file at the kill (present=%v):\n%s\noffsets file at the third start (present=%v):\n%s", first, again, haveOffsets, snapshot, have3, snap3)
+				case again != "":
+					miss = nil
+					vkit.Note(P, "file.d ended itself during the third start (not judged): "+again)
+				default:
+					r3.stop()
+					panics = nil // judged below like any other case: r1, r2 and r3 together must have delivered every line
+					snapshot = string(snap3)
+				}
+			}
 		}
 	} else {
 		r2.stop()
